@@ -87,7 +87,7 @@ def chunksOf : List Bytes → List Bytes
 /-- a source never delivers data after reporting end-of-file -/
 def wellFormedReads : List Bytes → Prop
   | [] => True
-  | r :: rs => if r.length = 0 then rs = [] else wellFormedReads rs
+  | r :: rs => (r.length = 0 → rs = []) ∧ (r.length ≠ 0 → wellFormedReads rs)
 
 /-! ### I/O level -/
 
